@@ -77,7 +77,7 @@ def self_style(printed):
 
 
 def run(b, ps, tier, seed):
-    n_cases, pool_max, env_size = (220, 12, 6) if tier == "quick" else (6000, 30, 10)
+    n_cases, pool_max, env_size = (220, 12, 6) if tier == "quick" else (3000, 30, 10)
     stream = list(G.stream(seed + 15, n_cases, pool_max, env_size))
     cases = [(i, k, t) for i, k, t, _ in stream]
     n_mut = 150 if tier == "quick" else 6000
@@ -87,11 +87,11 @@ def run(b, ps, tier, seed):
     t0 = time.time()
     impl, model, timpl, tmodel = {}, {}, {}, {}
     if not b.probe_error:
-        impl = S.run_tool(b.probe, "eq", cases, timeout=1500)
-        timpl = S.run_tool(b.probe, "formrt", tcases, timeout=1500)
+        impl = E.run_capped(b.probe, "eq", cases)
+        timpl = E.run_capped(b.probe, "formrt", tcases)
     if not b.model_error and not b.probe_error:
-        model = S.run_tool(b.model, "eq", cases, timeout=1500)
-        tmodel = S.run_tool(b.model, "formrt", tcases, timeout=1500)
+        model = E.run_capped(b.model, "eq", cases)
+        tmodel = E.run_capped(b.model, "formrt", tcases)
     dt = time.time() - t0
     stats = {"accepted": 0, "types_printed": 0, "round_trips": 0, "same_print_pairs": 0, "string_mismatches": 0,
              "terms_printed": 0, "terms_self_style": 0, "term_round_trips_ok": 0, "programs_parsed": 0}
